@@ -124,8 +124,15 @@ func Build(s Spec, mons ...vnet.Monitor) *Built {
 	asyncThenSync := false
 	initTx := 0
 	switch s.Profile {
-	case "sync-perm":
+	case "sync-perm", "long-chain":
 		cfg = baseConfig(s, r, Opt{Ns: []int{1, 2, 3, 4, 4, 5, 6, 7}, MinH: 3, MaxH: 5, Dyn: 1})
+		if s.Profile == "long-chain" {
+			// one instance per node lives through a long chain: state that accumulates or is reused across
+			// heights (round-trip ring buffer, reusable tables, future-message cache, last-block bookkeeping)
+			cfg.Heights = 120 + r.Intn(200)
+			cfg.MaxSteps = 400 * cfg.Heights * (cfg.N + 1)
+			cfg.MaxClock = time.Duration(cfg.Heights) * 400 * max(cfg.TPB, cfg.MaxTPB)
+		}
 		cfg.K.Sync = true
 		cfg.K.PDup = 0.1
 		cfg.K.PNewTx = 0.02
